@@ -239,6 +239,20 @@ def gen_history(r, tier):
         h.ins_pod(dst2)
         h.query(q)
         h.query((q[0], q[1], pr, n2))
+    # motif 5: one port number allowed on one protocol only, asked about on all three in a row: what is remembered for one protocol
+    # says nothing about another
+    if r.random() < 0.3:
+        ns = r.choice(h.nss)
+        a = {'kind': 'Pod', 'ns': ns, 'name': 'psrc', 'labels': {'app': 'a'}, 'ports': [], 'replicas': None, 'owner': {'name': 'own-psrc', 'kind': 'ReplicaSet'}}
+        b = {'kind': 'Pod', 'ns': ns, 'name': 'pdst', 'labels': {'app': 'p'}, 'ports': [], 'replicas': None, 'owner': {'name': 'own-pdst', 'kind': 'ReplicaSet'}}
+        h.ins_pod(a); h.ins_pod(b)
+        pr, pt = r.choice(gen.PROTOS), r.choice(gen.PORTS)
+        h.ins_np({'ns': ns, 'name': 'npproto', 'podSelector': {'matchLabels': {'app': 'p'}}, 'policyTypes': ['Ingress'],
+                  'ingress': [{'ports': [{'protocol': pr, 'port': pt}]}]})
+        order = list(gen.PROTOS)
+        r.shuffle(order)
+        for q_pr in order + [order[0]]:
+            h.query((('pod', ns + '/psrc'), ('pod', ns + '/pdst'), q_pr, pt))
     # motif 4: two NetworkPolicies in one namespace, a cached verdict that depends on one of them, which is then deleted
     if r.random() < 0.3:
         ns = r.choice(h.nss)
